@@ -184,9 +184,11 @@ pub(super) fn eval_shift_expression(
     use ShiftOp::*;
     match (left, right) {
         (ConstantValue::Integer(l), ConstantValue::Integer(r)) => {
+            let n: u32 = r.try_into()?;
             let a = match op {
-                RightShift => l.checked_shr(r.try_into()?),
-                LeftShift => l.checked_shl(r.try_into()?),
+                RightShift => l.checked_shr(n),
+                // checked_shl() tests the shift amount, but not the result
+                LeftShift => l.checked_shl(n).filter(|a| a >> n == l),
             };
             a.map(ConstantValue::Integer)
                 .ok_or(ExpressionError::IntegerOverflow)
